@@ -282,3 +282,68 @@ def any_cap_iterations_stop_at_first_convergence_or_cap(cap: int, cycle: int, no
     assert pat[n - 1] or n == cap, "stopped because all converged, or because the cap was reached"
     assert r.core.p.coupledIteration == n
     assert trace == [("DBWRITE",)], "then the node is written, once"
+
+
+# ----------------------------------------------------------------------------- stack construction
+class FluxA(Rec):
+    name = "fluxA"
+    function = "globalFlux"
+
+
+class FluxB(Rec):
+    name = "fluxB"
+    function = "globalFlux"
+
+
+class FluxA2(FluxA):
+    name = "fluxA2"
+
+
+def fresh(cls, trace, name=None):
+    i = new(cls, _enabled=True, _bolForce=False, reverseAtEOL=False, trace=trace, halts=False, coupler=None, r=None, cs=None, o=None)
+    if name is not None:
+        i.name = name
+    return i
+
+
+@lemma(gen={"where": (0, 3)})
+def add_interface_places_flags_and_refuses_duplicates(where: int, enabled: bool, force: bool, rev: bool):
+    """stack [a, b]; a third interface added at index 0..2 or appended (where = 3); flags symbolic"""
+    where = choose(where, 0, 3)
+    trace = []
+    a, b, c = fresh(Rec, trace, "a"), fresh(Rec, trace, "b"), fresh(Rec, trace, "c")
+    o = operator([a, b])
+    o.addInterface(c, index=(None if where == 3 else where), reverseAtEOL=rev, enabled=enabled, bolForce=force)
+    want = [a, b]
+    want.insert(2 if where == 3 else where, c)
+    assert len(o.interfaces) == 3 and all([same(x, y) for x, y in zip(o.interfaces, want)]), "inserted at the index / appended; the others keep their order"
+    assert c.enabled() == enabled and c.bolForce() == force and c.reverseAtEOL == rev, "flags as requested"
+    assert same(c.o, o) and same(c.r, o.r), "attached to the operator and its reactor"
+    o.interactAllBOL()
+    assert [t[1] for t in trace] == [i.name for i in want if i.enabled() or i.bolForce()], "and it is called at its place in the stack"
+    dup = fresh(Rec, trace, "b")
+    try:
+        o.addInterface(dup)
+        ok = True
+    except RuntimeError:
+        ok = False
+    assert not ok and len(o.interfaces) == 3, "a second interface of the same name is refused; the stack is unchanged"
+
+
+@lemma
+def one_interface_per_function_the_more_derived_wins():
+    trace = []
+    base, other, derived = fresh(FluxA, trace), fresh(FluxB, trace), fresh(FluxA2, trace)
+    first = fresh(Rec, trace, "a")
+    o = operator([first, base])
+    try:
+        o.addInterface(other)
+        ok = True
+    except RuntimeError:
+        ok = False
+    assert not ok and len(o.interfaces) == 2, "two unrelated interfaces of one function are refused"
+    o.addInterface(derived)
+    assert len(o.interfaces) == 2 and same(o.interfaces[1], derived) and base.o is None, "a subclass replaces the more general interface of that function"
+    o.addInterface(fresh(FluxA, trace))
+    assert len(o.interfaces) == 2 and same(o.interfaces[1], derived), "the more general one is then ignored"
+    assert same(o.getInterface(function="globalFlux"), derived) and same(o.getInterface("a"), first) and o.getInterface("zz") is None
